@@ -4,8 +4,9 @@
 //! bound for any input of that size) are the property; `contract` ties failure to the error list.
 //!
 //! @default harness props=C20:Q n=3 err=EmptyErr/Cheap timeout=900
-//! @default shape W(P): the wrapper W is fixed per harness (name: c20_m_<error type>_<wrapper>), P in {just seq, custom, try_map, filter, select} is symbolic (boxed); parse() and check()
-//! @default symbolic t0, t1: u8; inner parser kind 0..=4; input 3 bytes
+//! @default shape W(P): the wrapper W is fixed per harness (name: c20_m_<error type>_<wrapper>), P in {just seq, custom, try_map, filter, capped collect_exactly, select} is symbolic (boxed); parse() and check()
+//! @default symbolic t0, t1: u8; inner parser kind 0..=5; input 3 bytes
+//! @default thorough-only c20_m_cheap_recover_stacked
 //! @default aims every failing parser must leave a pending error for the "can't fail" unwraps of map_err / recover_with; zero-sized-error fast paths of add_alt / add_alt_err
 use crate::obs::Tr;
 use crate::sym::{Inp, Src};
@@ -23,7 +24,7 @@ macro_rules! matrix {
         type X<'a> = extra::Err<$E>;
         type I<'a> = &'a [u8];
         let $t = [$s.u8(), $s.u8()];
-        let inner_k = $s.upto(4);
+        let inner_k = $s.upto(5);
         let inp = Inp::<3>::any($s);
         let x = inp.get();
         let mk = $mk_user;
@@ -43,6 +44,8 @@ macro_rules! matrix {
                 .try_map(move |a: u8, span| if a > t[0] { Ok(a) } else { Err(mk(span)) })
                 .boxed(),
             3 => any::<I, X>().then(any()).map(|(a, _)| a).filter(move |a: &u8| *a > t[0]).boxed(),
+            // a repetition that stops at its own cap before the fixed-size container is full (fails without any item failing)
+            4 => any::<I, X>().repeated().at_most((t[0] & 3) as usize).collect_exactly::<[u8; 2]>().map(|a: [u8; 2]| a[0]).boxed(),
             _ => chumsky::primitive::select::<_, I, u8, X>(move |a: u8, _| if a > t[0] { Some(a) } else { None }).boxed(),
         };
         let p = $wrap;
@@ -60,8 +63,8 @@ macro_rules! matrix_fns {
     ($( $name:ident, $E:ty, $mk:expr, $wdesc:literal, |$inner:ident, $t:ident| $wrap:expr ;)*) => {
         $(
             /// @harness props=C20:Q n=3 timeout=900
-            /// @shape W(P) with W fixed (see the function name) and P in {just seq, custom, try_map, filter, select} symbolic (boxed); parse() and check()
-            /// @symbolic t0, t1: u8; inner kind 0..=4; input 3 bytes
+            /// @shape W(P) with W fixed (see the function name) and P in {just seq, custom, try_map, filter, capped collect_exactly, select} symbolic (boxed); parse() and check()
+            /// @symbolic t0, t1: u8; inner kind 0..=5; input 3 bytes
             /// @aims every failing parser must leave a pending error for the "can't fail" unwraps of the wrapper; zero-sized-error fast paths of add_alt / add_alt_err
             pub fn $name<S: Src>(s: &mut S) {
                 let _ = $wdesc;
@@ -84,7 +87,35 @@ matrix_fns! {
     c20_m_cheap_via_body, Cheap, |span: SimpleSpan| Cheap::new(span), "recover_with(via_parser)", |inner, t| inner.recover_with(via_parser(any().or_not().map(|o: Option<u8>| o.unwrap_or(0))));
     c20_m_cheap_skip_retry_body, Cheap, |span: SimpleSpan| Cheap::new(span), "recover_with(skip_then_retry_until)", |inner, t| inner.recover_with(skip_then_retry_until(any().ignored(), just(t[1]).ignored()));
     c20_m_cheap_memoized_body, Cheap, |span: SimpleSpan| Cheap::new(span), "memoized + recover_with", |inner, t| inner.memoized().recover_with(via_parser(any().or_not().map(|o: Option<u8>| o.unwrap_or(0))));
+    c20_m_empty_skip_retry_stacked_body, EmptyErr, |_span: SimpleSpan| EmptyErr::default(), "recover_with(skip_then_retry_until) + map_err", |inner, t| inner.recover_with(skip_then_retry_until(any().ignored(), just(t[1]).ignored())).map_err(|e| e);
+    c20_m_cheap_recover_stacked_body, Cheap, |span: SimpleSpan| Cheap::new(span), "recover_with(skip_then_retry_until) + recover_with(skip_until) + map_err", |inner, t| inner.recover_with(skip_then_retry_until(any().ignored(), just(t[1]).ignored())).recover_with(skip_until(any().ignored(), just(t[0]).ignored(), || 0u8)).map_err(|e| e);
+    c20_m_cheap_via_stacked_body, Cheap, |span: SimpleSpan| Cheap::new(span), "recover_with(via_parser(failing)) + map_err", |inner, t| inner.recover_with(via_parser(just(t[1]).then(just(t[0])).map(|(a, _)| a))).map_err(|e| e);
 }
+
+/// @harness props=C20:Q n=2 err=BitErr timeout=900 finding=F14
+/// @shape one_of(t0..)   [RangeFrom<u8>]   with an error type that enumerates the expected tokens (BitErr, like Rich)
+/// @symbolic t0: u8 in 250..=255; input 2 bytes
+/// @assume t0 >= 250 (keeps the enumeration of the expected tokens within the unwinding bound)
+/// @aims building the error of a failing one_of over an unbounded range must terminate without overflow
+pub fn c20_one_of_range_from_body<S: Src>(s: &mut S) {
+    use crate::errs::BitErr;
+    let t0 = s.u8();
+    crate::sym::assume(t0 >= 250);
+    let inp = Inp::<2>::any(s);
+    let x = inp.get();
+    type X<'a> = extra::Err<BitErr>;
+    type I<'a> = &'a [u8];
+    let p = one_of::<_, I, X>(t0..).or_not().then(any::<I, X>().repeated().count());
+    let r = p.parse(x);
+    contract(&r);
+    if let Some((first, rest)) = r.output() {
+        check!("C20:one_of-range-from-matches-its-range", first.is_some() == (!x.is_empty() && x[0] >= t0));
+        check!("C20:one_of-range-from-remainder", *rest + if first.is_some() { 1 } else { 0 } == x.len());
+    }
+    cover!("cover:accept", r.has_output());
+    cover!("cover:mismatch", r.has_output() && !x.is_empty() && x[0] < t0);
+}
+
 
 /// @harness props=C20:Q n=2 err=Cheap timeout=900 input=&str_of_up_to_2_FULLY_SYMBOLIC_chars_(any_Unicode_scalar_value)
 /// @shape (any then 'é'?).to_slice() then any*.to_slice() on a &str made of up to 2 arbitrary Unicode scalar values
@@ -162,6 +193,10 @@ crate::harnesses! {
     c20_m_cheap_via [6] = c20_m_cheap_via_body;
     c20_m_cheap_skip_retry [6] = c20_m_cheap_skip_retry_body;
     c20_m_cheap_memoized [8] = c20_m_cheap_memoized_body;
+    c20_m_empty_skip_retry_stacked [6] = c20_m_empty_skip_retry_stacked_body;
+    c20_m_cheap_recover_stacked [6] = c20_m_cheap_recover_stacked_body;
+    c20_m_cheap_via_stacked [6] = c20_m_cheap_via_stacked_body;
+    c20_one_of_range_from [9] = c20_one_of_range_from_body;
     c20_str_arbitrary [6] = c20_str_arbitrary_body;
     c20_text_bytes [6] = c20_text_bytes_body;
 }
